@@ -191,6 +191,7 @@ class Tie:
         d['convertOk'] = attempt(lambda: (CT.convert_to_typing_types(t), True)[1], False) if d['isGenericAlias'] else None
         d['asClass'] = K.IDX.get(t) if isinstance(t, type) and not d['isGenericAlias'] and attempt(lambda: t in K.IDX, False) else None
         d['isProtocolMeta'] = type(t) == CT._ProtocolMeta
+        d['isNTClass'] = isinstance(t, type) and issubclass(t, tuple) and hasattr(t, '_fields')
         d['ellipsis'] = attempt(lambda: Ellipsis in CT.get_type_arguments(t), '!')
         d['requiredOk'] = attempt(lambda: CT._has_required_type_arguments(t), '!')
         d['isForwardRef'] = attempt(lambda: bool(CT._is_forward_ref(t)))
@@ -206,7 +207,7 @@ class Tie:
                'supertype': '_is_type_new_type(type_)', 'isForwardRef': '_is_forward_ref(type_)', 'isFwdRef': '_is_forward_ref(type_)',
                'fwdName': '_is_forward_ref(type_)', 'originCls': 'type_.__origin__', 'builtin': 'type_ in {',
                'isGenericAlias': 'isinstance(type_, types.GenericAlias)', 'convertOk': 'isinstance(type_, types.GenericAlias)',
-               'asClass': 'isinstance(type_, types.GenericAlias)'}
+               'asClass': 'isinstance(type_, types.GenericAlias)', 'isNTClass': "hasattr(type_, '_fields')"}
 
     def compare_node(self, node, t, val, ctx):
         """-> list of 'field: lean x / real y' for one node"""
@@ -350,13 +351,18 @@ def extra_cases(rng, tier):
     nt1 = ["ntup", IDX[K.NT1], [nid('a'), nid('b')], [lit(1), lit('a')]]
     nt1bad = ["ntup", IDX[K.NT1], [nid('a'), nid('b')], [lit('x'), lit('a')]]
     nt3 = ["ntup", IDX[K.NT3], [nid('x')], [lit(1)]]
+    nt2 = ["ntup", IDX[K.NT2], [nid('a'), nid('b')], [lit(1), lit('a')]]
+    ntsub = ["ntup", IDX[K.NTSub], [nid('a'), nid('b')], [lit(1), lit('a')]]
+    ntsubbad = ["ntup", IDX[K.NTSub], [nid('a'), nid('b')], [lit(1), lit(2)]]
     vals = [lit(None), lit(1), lit('a'), ["coll", IDX[list], []], ["coll", IDX[list], [lit(1)]], ["tup", IDX[tuple], []], ["tup", IDX[tuple], [lit(1), lit('a')]],
-            nt0, nt1, nt1bad, nt3, ["inst", IDX[K.U]], ["inst", IDX[K.P]], ["inst", IDX[K.DC]], ["clsobj", IDX[int]], ["mapping", IDX[dict], []],
+            nt0, nt1, nt1bad, nt3, nt2, ntsub, ntsubbad, ["inst", IDX[K.PF]], ["inst", IDX[K.U]], ["inst", IDX[K.P]], ["inst", IDX[K.DC]], ["clsobj", IDX[int]], ["mapping", IDX[dict], []],
             ["mapping", IDX[collections.defaultdict], [[lit('k'), lit(1)]]], ["coll", IDX[collections.deque], [lit(1)]], ["iterator", IDX[K.ListIterator], [lit(1)]]]
     anns = []
     anns += [["str", nid(n)] for n in ('Nope', 'DC', 'NT1', 'NT0', 'U', 'int', 'object')]
     anns += [["newtype", IDX[c]] for c in (K.NT1, K.NT0, tuple, object, int)]
-    anns += [cls(c) for c in (int, object, tuple, K.NT0, K.NT1, K.NT3, K.DC, K.U, K.TS)]
+    anns += [cls(c) for c in (int, object, tuple, K.NT0, K.NT1, K.NT2, K.NT3, K.NTSub, K.PF, K.DC, K.U, K.TS)]
+    anns += [["seq", "typing", "list", cls(K.NT1)], ["map", "pep585", "dict", cls(str), cls(K.NT1)], ["union", "optional", [cls(K.NTSub), ["cls", IDX[K.NoneType]]]],
+             ["tuple", "typing", [cls(K.NT1), cls(K.PF)]]]
     for sp in ('typing', 'pep585'):
         anns += [["seq", sp, o, cls(int)] for o in K.SEQ] + [["map", sp, o, cls(str), cls(int)] for o in K.MAP]
         anns += [["tuple", sp, []], ["tuple", sp, [cls(int), cls(str)]], ["tuplevar", sp, cls(int)], ["typeof", sp, cls(int)], ["typeof", sp, ["any"]],
